@@ -719,9 +719,11 @@ func srcSide(r *mon.Run) {
 				r.Count("src_transient_error_absorbed_without_loss", 1)
 				return
 			}
-			if j.at == len(j.f.file) && j.kind.err == io.ErrUnexpectedEOF && res.ReadErr == io.EOF && bytes.Equal(res.Plain, j.f.pt) {
-				// the source delivered EVERY byte of the file and then said
-				// io.ErrUnexpectedEOF instead of io.EOF: that is the very value
+			if j.once && j.at == len(j.f.file) && j.kind.err == io.ErrUnexpectedEOF && res.ReadErr == io.EOF && bytes.Equal(res.Plain, j.f.pt) {
+				// the source delivered EVERY byte of the file, said
+				// io.ErrUnexpectedEOF ONCE and io.EOF from then on (a source
+				// that keeps saying it is reported by the end-of-file probe,
+				// and must be): the one value is the very value
 				// io.ReadFull itself produces for the short final chunk, the
 				// reader cannot tell the two apart, and the complete true
 				// plaintext was released: the end of the data, not a failure
